@@ -297,6 +297,8 @@ def classify_spec(spec):
         tags.append("relation:" + interval_form(r.get("interval")))
     for p in spec.get("penalties", []):
         tags.append("penalty")
+    tags.append(f"constraints={len(spec.get('constraints', []))}")
+    tags.append(f"relations={len(spec.get('relations', []))}")
     for w in spec.get("weights", []):
         tags.append("weight:" + ("g" if w.get("global_interval") is not None else "-") + ("m" if w.get("model_interval") is not None else "-"))
     if any(ds.get("weight") is not None and any(ds["label"] in w["datasets"] for w in spec.get("weights", [])) for ds in spec["datasets"]):
@@ -382,6 +384,26 @@ def match_penalties(real, outcome_lists, scale):
     return rec(0, 0)
 
 
+def member_stats(ck, spec, mem, v):
+    """linked group, aligned point v with members (dataset, own index): how often does an interval item decide
+    differently at a member's own coordinate than at the aligned coordinate the statement is read on"""
+    items = [("constraint", c) for c in spec.get("constraints", [])] + [("relation", r) for r in spec.get("relations", [])]
+    for ds, gi in mem:
+        own = ds["global_axis"][gi]
+        ck.count("link:member-points")
+        if own == v:
+            continue
+        ck.count("link:member-points-merged-into-another-coordinate")
+        for kind, it in items:
+            if it.get("interval") is None:
+                continue
+            a_own, a_al = applies_by_statement(it.get("interval"), own), applies_by_statement(it.get("interval"), v)
+            ck.count("link:merged-member-x-interval-item")
+            if a_own != a_al:
+                ck.count("link:merged-member-disagrees-with-aligned:" + kind
+                         + (":member-inside-aligned-outside" if a_own else ":member-outside-aligned-inside"))
+
+
 def e2e_oracle(ck, spec, res, canon_warnings, case):
     P = spec["parameters"]
     warned_labels, pen_warnings = canon_warnings
@@ -448,19 +470,27 @@ def e2e_oracle(ck, spec, res, canon_warnings, case):
             return (d * w if w is not None else d), w
 
         def compare(ds, gi, x, order, ref):
-            """real clps of dataset ds at its global index gi against the reference dict + exact zero / ratio checks"""
+            """real clps of dataset ds at its global index gi against the reference dict + exact zero / ratio checks.
+            `x` is the coordinate the statement is read on: the dataset's own coordinate in an unlinked group, the ALIGNED
+            coordinate of the shared clp in a linked group (the member's own coordinate differs from it by at most the tolerance)"""
             r = res.data[ds["label"]]
             labels = [str(v) for v in r.clp.coords["clp_label"].values]
             c = arr(r.clp, "global", "clp_label")[gi]
-            sub = {**case, "dataset": ds["label"], "global_value": x}
+            own = ds["global_axis"][gi]
+            sub = {**case, "dataset": ds["label"], "global_value": x, "own_coordinate": own}
+            # does some item decide differently at the member's own coordinate than at the aligned one?
+            moved = own != x and any(applies_by_statement(it.get("interval"), own) != applies_by_statement(it.get("interval"), x)
+                                     for it in list(spec.get("constraints", [])) + list(spec.get("relations", [])))
+            tag = ":member-and-aligned-coordinate-disagree" if moved else ""
             scale = max([abs(v) for v in ref.values()] + [1.0])
             for l in labels:
                 if l in ref and not close(c[labels.index(l)], ref[l], scale):
                     rels = [rr for rr in spec.get("relations", []) if rr["target"] == l or rr["source"] == l]
                     cons = [cc for cc in spec.get("constraints", []) if cc["target"] == l]
                     kind = "relation" if rels else ("constraint" if cons else "free")
-                    ck.violation(f"e2e-clp-differs-from-constrained-ls:{kind}:{'linked' if linked else 'unlinked'}",
-                                 f"{ds['label']!r}: clp {l!r} at global value {x} is {c[labels.index(l)]}, the least-squares problem "
+                    ck.violation(f"e2e-clp-differs-from-constrained-ls:{kind}:{'linked' if linked else 'unlinked'}{tag}",
+                                 f"{ds['label']!r}: clp {l!r} at global value {x}" + (f" (own coordinate {own})" if own != x else "")
+                                 + f" is {c[labels.index(l)]}, the least-squares problem "
                                  f"with the constraints/relations that apply at this point (closed intervals) and the reported weight gives {ref[l]}",
                                  {**sub, "observed": float(c[labels.index(l)]), "required": float(ref[l])})
                     return False
@@ -472,7 +502,7 @@ def e2e_oracle(ck, spec, res, canon_warnings, case):
                     if con["type"] == "only":
                         a = not a
                     if a and c[labels.index(con["target"])] != 0.0:
-                        ck.violation(f"e2e-constrained-clp-nonzero:{con['type']}",
+                        ck.violation(f"e2e-constrained-clp-nonzero:{con['type']}{tag}",
                                      f"{ds['label']!r}: clp {con['target']!r} is constrained ({con['type']}, interval {con.get('interval')}) "
                                      f"at global value {x} but is {c[labels.index(con['target'])]}", sub)
                         return False
@@ -481,7 +511,7 @@ def e2e_oracle(ck, spec, res, canon_warnings, case):
                         and applies_by_statement(rr.get("interval"), x):
                     t, s_ = c[labels.index(rr["target"])], c[labels.index(rr["source"])]
                     if t != P[rr["parameter"]] * s_:
-                        ck.violation("e2e-related-clp-not-exact", f"{ds['label']!r}: clp {rr['target']!r} != parameter x {rr['source']!r} "
+                        ck.violation("e2e-related-clp-not-exact" + tag, f"{ds['label']!r}: clp {rr['target']!r} != parameter x {rr['source']!r} "
                                      f"at global value {x} inside {rr.get('interval')}", sub)
                         return False
             return True
@@ -529,6 +559,7 @@ def e2e_oracle(ck, spec, res, canon_warnings, case):
             clp_at, labels_at = [], []
             for v in axis:
                 mem = [(ds, al.index(v)) for ds, al in zip(members, aligned) if v in al]
+                member_stats(ck, spec, mem, v)
                 union = []
                 for ds, gi in mem:
                     _, order = c02._columns(spec, ds, gi, P)
